@@ -39,7 +39,7 @@ Hosts(w) == 1 .. Len(w.dc)
 \*           added / reported up and not removed / reported down since
 \* up      : hosts whose state is UP
 State0(w) == [members |-> <<>>, lists |-> [t \in 0 .. 2 |-> <<>>], up |-> Hosts(w), npicks |-> 0,
-              partset |-> FALSE, ksknown |-> FALSE]
+              partset |-> FALSE, ksknown |-> FALSE, ks2known |-> FALSE]
 SeqAdd(s, h) == IF h \in RangeOf(s) THEN s ELSE Append(s, h)
 SeqDel(s, h) == SelectSeq(s, LAMBDA x : x # h)
 
@@ -51,6 +51,7 @@ Apply(w, s, e) ==
     [] e.op = "sdown"   -> [s EXCEPT !.up = @ \ {e.h}]
     [] e.op = "setpart" -> [s EXCEPT !.partset = TRUE]
     [] e.op = "ks"      -> [s EXCEPT !.ksknown = TRUE]
+    [] e.op = "ks2"     -> [s EXCEPT !.ks2known = TRUE]
     [] e.op = "pick"    -> [s EXCEPT !.npicks = @ + e.h]
     [] OTHER            -> s
 
@@ -58,6 +59,11 @@ RECURSIVE FoldHist(_, _, _, _)
 FoldHist(w, s, hist, k) == IF k > Len(hist) THEN s ELSE FoldHist(w, Apply(w, s, hist[k]), hist, k + 1)
 \* state after the first n entries of the history
 StateAfter(w, hist, n) == FoldHist(w, State0(w), SubSeq(hist, 1, n), 1)
+
+\* A statement may be on a table of a second keyspace (w.strat2 / rfdc2 / rfn2, known after "ks2") with
+\* its own replication: the world and state as seen for keyspace k (1 = the session's keyspace).
+ForKs(w, s, k) == IF k = 2 THEN <<[w EXCEPT !.strat = w.strat2, !.rfdc = w.rfdc2, !.rfn = w.rfn2], [s EXCEPT !.ksknown = s.ks2known]>>
+                  ELSE <<w, s>>
 
 Known(s) == RangeOf(s.lists[0]) \cup RangeOf(s.lists[1]) \cup RangeOf(s.lists[2])
 Live(s) == Known(s) \cap s.up
